@@ -35,6 +35,10 @@ def render(p):
 
 # ------------------------------------------------------------------ reference evaluator
 
+class RefOutside(Exception):
+    """the reference semantics makes no statement here (nothing is claimed about the program)"""
+
+
 class RefError(Exception):
     pass
 
@@ -89,7 +93,7 @@ def show(v):
         if len(v) == 2 and v[0] == Sym('quote'):
             return "'" + show(v[1])
         return '(' + ' '.join(show(x) for x in v) + ')'
-    raise RefError('cannot show')
+    raise RefOutside('printing a function value is not defined by the reference')
 
 
 def truthy(v):
